@@ -202,6 +202,11 @@ func NewValidatorSlashesRequest(method *abi.Method, args []interface{}) (*distri
 		return nil, fmt.Errorf("error while unpacking args to ValidatorSlashesInput struct: %s", err)
 	}
 
+	// an empty ABI `bytes` key means "no key": leave it nil so that offset pagination stays usable
+	if len(input.PageRequest.Key) == 0 {
+		input.PageRequest.Key = nil
+	}
+
 	return &distributiontypes.QueryValidatorSlashesRequest{
 		ValidatorAddress: input.ValidatorAddress,
 		StartingHeight:   input.StartingHeight,
